@@ -38,6 +38,8 @@ enum Seen {
 	Absent,
 	Value { ver: u64, len: u32 },
 	Garbage(u8),
+	/// result of `get_size`: only the length is known (None = absent)
+	Size(Option<u32>),
 }
 
 fn decode(v: &[u8], owner: u8, colid: u8, kidx: u16) -> Seen {
@@ -298,6 +300,19 @@ fn history(ctx: &Ctx, rep: &mut Report, case_seed: u64, variant: u64, always_flu
 				let ki = r.usize(keys[c as usize][o].len());
 				for _ in 0..r.range(1, 4) {
 					let lo_c = completed[o].load(Ordering::SeqCst);
+					if r.chance(1, 6) {
+						// the size-only read goes through its own code path
+						let g = db.get_size(c, &keys[c as usize][o][ki]);
+						let hi_s = started[o].load(Ordering::SeqCst);
+						match g {
+							Ok(sz) => reads.push(Read { colid: c, owner: o as u8, kidx: ki as u16, lo_c, hi_s, seen: Seen::Size(sz) }),
+							Err(e) => {
+								err = Some(format!("get_size failed: {}", e));
+								break
+							},
+						}
+						continue
+					}
 					let g = db.get(c, &keys[c as usize][o][ki]);
 					let hi_s = started[o].load(Ordering::SeqCst);
 					let seen = match g {
@@ -426,6 +441,17 @@ fn history(ctx: &Ctx, rep: &mut Report, case_seed: u64, variant: u64, always_flu
 						rep.seen(format!("c{}|value|w{}|af{}|cl{}", rd.colid, bucket(hi - lo), always_flush as u8, size_class(len as usize).min(200) / 20));
 					}
 					seen_v[o] = seen_v[o].max(ver);
+				},
+				Seen::Size(sz) => {
+					// feasible iff the last write at `lo`, or some write in (lo, hi], left this
+					// size (absent: a removal / nothing). Nothing is learnt about `seen`.
+					let at_lo = w.iter().rev().find(|(v, _)| *v <= lo).map(|x| x.1);
+					let ok = at_lo.unwrap_or(None) == sz || w.iter().any(|(v, s)| *v > lo && *v <= hi && *s == sz);
+					rep.count("size_reads", 1);
+					if !ok {
+						witness = Some(fail("failure=size_of_no_feasible_version".to_string()));
+						break 'outer
+					}
 				},
 				Seen::Absent => {
 					// last writer at lo
